@@ -136,6 +136,9 @@ def c04(chk):
                  runs=8 if quick(chk) else 200, jobs=12, files=4)
     s3["args"] = {"mode": "replace"}
     trace_check(chk, *CONN_TRACE, s3, label="rpc-replace")
+    # an application handler that panics while serving one request: whatever becomes of the node, it never
+    # keeps listing a peer whose connection is gone
+    replay_check(chk, "handler-panic", harness("handler-panic"))
     # (b) several OS threads on the real ActivePeers with real connections; linearised by the
     # sequence number taken under the lock
     st = harness("apstress", seed=chk.seed, runs=4 if quick(chk) else 60, threads=6, ops=150 if quick(chk) else 300,
@@ -327,6 +330,9 @@ def c09(chk):
             (r["ev"], r.get("reason"), "removed" in r) if r["ev"] in ("h.closing", "ap.remove_id", "obs.quiesce") else None))
     sample_events(chk, summ, ("h.closing", "obs.quiesce", "obs.rpc_result"), n=4)
     conn_replay(chk, "mgr-replay3", "SIM_ConnReplay3.cfg", num=40 if quick(chk) else 1500, depth=120)
+    # an application handler that panics while serving one request of a peer that then leaves: the peer is
+    # reported lost (or the node is down and lists nobody)
+    replay_check(chk, "handler-panic", harness("handler-panic"))
     # valid but unusual configurations on one side only (no uni streams on the listener, one bidi stream,
     # tiny windows, one-slot mailbox, keep-alive on the other side only, ...): connected, listed, reachable
     # both ways, kept alive through an idle period, clean shutdown - whatever the setting
